@@ -285,7 +285,9 @@ def async_spec_funcs(c):
         if n in ('gen.Future', 'Future', 'asyncio.Future', 'concurrent.futures.Future'):
             return I.truth(is_future(I, [v], {}, None))
         raise Unsupported('isinstance(..., %s)' % n)
-    return {'isinstance': isinstance_hook,
+    def gather(I, args, kwargs, fr):
+        return VAw(z3.Const(sym.fresh_name('gather'), sym.Aw))
+    return {'isinstance': isinstance_hook, 'builtin_asyncio.gather': gather,
             'builtin_inspect.iscoroutine': narrower('is_coroutine'), 'builtin_asyncio.iscoroutine': narrower('is_coroutine'),
             'builtin_inspect.isawaitable': isawaitable,
             'builtin_gen.is_future': narrower('is_future'), 'builtin_asyncio.isfuture': narrower('is_future'),
